@@ -2,6 +2,7 @@ package resource
 
 import (
 	"context"
+	"io"
 	"log"
 	"sort"
 	"sync"
@@ -20,8 +21,10 @@ import (
 type Collection struct {
 	*config
 
-	mu   sync.RWMutex // protects byId and rng from concurrent access
+	mu   sync.RWMutex // protects byId from concurrent access
 	byId map[string]*item
+	// rngMu serialises use of rng: ids are generated under mu's read lock, which concurrent writers share
+	rngMu sync.Mutex
 	// "change" events contain a *CollectionChange instance
 	bus minibus.Bus
 	pub publishQueue // orders bus sends by commit order
@@ -386,7 +389,7 @@ func (c *Collection) itemSlice(readConfig *ReadRequest) []idItem {
 }
 
 func (c *Collection) genID() (string, error) {
-	id, err := GenerateUniqueId(c.rng, func(candidate string) bool {
+	id, err := GenerateUniqueId(lockedReader{mu: &c.rngMu, r: c.rng}, func(candidate string) bool {
 		if c.idInterceptor != nil {
 			candidate = c.idInterceptor(candidate)
 		}
@@ -398,6 +401,18 @@ func (c *Collection) genID() (string, error) {
 		id = c.idInterceptor(id)
 	}
 	return id, err
+}
+
+// lockedReader serialises reads from a source of randomness that is not safe for concurrent use.
+type lockedReader struct {
+	mu *sync.Mutex
+	r  io.Reader
+}
+
+func (l lockedReader) Read(p []byte) (int, error) {
+	l.mu.Lock()
+	defer l.mu.Unlock()
+	return l.r.Read(p)
 }
 
 type item struct {
